@@ -32,6 +32,7 @@ type GraphOpts struct {
 	NoUnequal   bool
 	DirOut      bool // some outputs are directories
 	Join        bool // StreamToSubStream + joined in-port shapes
+	TagShared   bool // MapToTags also on streams that have other consumers (C12)
 }
 
 type stream struct {
@@ -348,7 +349,12 @@ func Graph(rng *rand.Rand, name string, o GraphOpts) *spec.Spec {
 			s.Procs = append(s.Procs, &spec.Proc{Name: mn, Kind: spec.KMapToTags, Tags: []*spec.TagRule{{Key: key, Rule: rule}}})
 			st := streams[len(streams)-1]
 			s.Conns = append(s.Conns, &spec.Conn{From: st.port, To: mn + ".in"})
-			streams[len(streams)-1] = &stream{port: mn + ".out", n: st.n, amb: st.amb, tags: append(append([]string{}, st.tags...), key)}
+			nst := &stream{port: mn + ".out", n: st.n, amb: st.amb, tags: append(append([]string{}, st.tags...), key)}
+			if o.TagShared {
+				streams = append(streams, nst)
+			} else {
+				streams[len(streams)-1] = nst
+			}
 		}
 		if o.Recorders && len(outs) > 0 && rng.Intn(4) == 0 {
 			// put a recorder behind the first out-port
